@@ -631,6 +631,46 @@ Section Sym.
     - intros NC NC'. now apply (pass_rep_sym s s' pp pp' G G' b0 b0' SR).
     - intros i d Hi NC NC'. now apply (move_rep_sym s s' pp pp' G G' b0 b0' i d SR Hi).
   Qed.
+
+  (* C11 along whole games: results at turn start correspond (colours swapped by tres), up to collisions *)
+  Hypothesis td_inv : forall d, td (td d) = d.
+
+  Definition NoCollisionState (s : state) (G : list pos) (b0 : pbs) : Prop :=
+    NoCollisionAt s G b0 (board s) /\ forall i d, NoCollisionAt s G b0 (board (take_action s (Move i d))).
+
+  Lemma nonempty_iff {A} (l l' : list A) : ((exists a, In a l) <-> (exists a, In a l')) -> nonempty l' = nonempty l.
+  Proof.
+    intros [H1 H2]. destruct l as [|x l], l' as [|y l']; cbn; try reflexivity.
+    - destruct (H2 (ex_intro _ y (or_introl eq_refl))) as [a []].
+    - destruct (H1 (ex_intro _ x (or_introl eq_refl))) as [a []].
+  Qed.
+
+  Theorem game_result s s' G G' b0 b0' pp : SymGame s s' G G' b0 b0' -> ph s = PlayPhase pp -> step_of pp = 0 ->
+    NoCollisionState s G b0 -> NoCollisionState s' G' b0' ->
+    exists r, is_terminal s = term_of r /\ is_terminal s' = term_of (tres r).
+  Proof.
+    intros R P S0 [_ NC] [_ NC']. destruct (symgame_rep _ _ _ _ _ _ R) as (q & q' & SR).
+    pose proof (sr_states _ _ _ _ _ _ _ _ SR) as Sy. pose proof Sy as [Inv Inv' Im Sd Stp Sst].
+    pose proof (inv_phase s q Inv) as E. rewrite P in E. injection E as <-.
+    assert (forall st p a, PlayInv st p -> step_of p = 0 -> In a (valid_actions st) -> exists i d, a = Move i d /\ i < 64) as OnlyMoves.
+    { intros st p a I0 Z Off. rewrite (valid_is_filter st p I0) in Off. apply filter_In in Off. destruct Off as [Off _].
+      destruct a as [k|i d|].
+      - exfalso. destruct I0 as [H1 H2 _ _ H5]. now apply (T1_no_place st p H1 H2 (status_inv_ok _ _ _ H5) k).
+      - exists i, d. split; [reflexivity|]. now destruct (offered_move_pre st p i d I0 Off).
+      - exfalso. destruct I0 as [H1 H2 H3 H4 H5]. apply (T1_pass st p H1 H2 (status_inv_ok _ _ _ H5)) in Off. rewrite Z in Off. unfold spec_pass_ok in Off. cbn in Off. discriminate. }
+    assert (nonempty (valid_actions s') = nonempty (valid_actions s)) as NE.
+    { apply nonempty_iff. split; intros [a Off].
+      - destruct (OnlyMoves s pp a Inv S0 Off) as (i & d & -> & Hi).
+        exists (Move (ts i) (td d)). apply (proj2 (game_withheld s s' G G' b0 b0' R) i d Hi (NC i d) (NC' (ts i) (td d))). exact Off.
+      - assert (step_of q' = 0) as S0' by now rewrite Stp.
+        destruct (OnlyMoves s' q' a Inv' S0' Off) as (j & e & -> & Hj).
+        exists (Move (ts j) (td e)).
+        apply (proj2 (game_withheld s s' G G' b0 b0' R) (ts j) (td e) (ts_lt j Hj) (NC (ts j) (td e))).
+        + rewrite (ts_inv j Hj), td_inv. apply NC'.
+        + rewrite (ts_inv j Hj), td_inv. exact Off. }
+    destruct (result_sym s s' pp q' Sy S0 NE) as [A B].
+    eexists. split; [exact B|exact A].
+  Qed.
 End Sym.
 
 (* ---- the two generators of the symmetry group ---- *)
@@ -707,6 +747,8 @@ Section Mirror.
   Definition mirror_game_rep := symgame_rep ts td tw m_lt m_inv m_eqb m_dst m_or4 m_trap m_back m_goal (facts_onto ts td tw mirror_facts) (fun o => eq_refl).
   Definition mirror_game_offered := game_offered ts td tw m_lt m_inv m_eqb m_dst m_or4 m_trap m_back m_goal (facts_onto ts td tw mirror_facts) (fun o => eq_refl).
   Definition mirror_game_withheld := game_withheld ts td tw m_lt m_inv m_eqb m_dst m_or4 m_trap m_back m_goal (facts_onto ts td tw mirror_facts) (fun o => eq_refl).
+  Lemma m_tdinv d : td (td d) = d. Proof. destruct d; reflexivity. Qed.
+  Definition mirror_game_result := game_result ts td tw m_lt m_inv m_eqb m_dst m_or4 m_trap m_back m_goal (facts_onto ts td tw mirror_facts) (fun o => eq_refl) m_tdinv.
   Definition mirror_game_preview := game_preview ts td tw m_lt m_inv m_eqb m_dst m_or4 m_trap m_back m_goal (facts_onto ts td tw mirror_facts) (fun o => eq_refl).
 End Mirror.
 
@@ -733,5 +775,7 @@ Section Flip.
   Definition flip_game_rep := symgame_rep ts td tw f_lt f_inv f_eqb f_dst f_or4 f_trap f_back f_goal (facts_onto ts td tw flip_facts) f_negb.
   Definition flip_game_offered := game_offered ts td tw f_lt f_inv f_eqb f_dst f_or4 f_trap f_back f_goal (facts_onto ts td tw flip_facts) f_negb.
   Definition flip_game_withheld := game_withheld ts td tw f_lt f_inv f_eqb f_dst f_or4 f_trap f_back f_goal (facts_onto ts td tw flip_facts) f_negb.
+  Lemma f_tdinv d : td (td d) = d. Proof. destruct d; reflexivity. Qed.
+  Definition flip_game_result := game_result ts td tw f_lt f_inv f_eqb f_dst f_or4 f_trap f_back f_goal (facts_onto ts td tw flip_facts) f_negb f_tdinv.
   Definition flip_game_preview := game_preview ts td tw f_lt f_inv f_eqb f_dst f_or4 f_trap f_back f_goal (facts_onto ts td tw flip_facts) f_negb.
 End Flip.
